@@ -11,7 +11,7 @@ from __future__ import annotations
 import ast
 import re
 
-from sa.consteval import ConstEval, NotConstant
+from sa.consteval import ConstEval, NotConstant, Opaque
 from sa.decoders import cdr_groups_finding, is_cdr_of
 from sa.model import Model
 from sa.paths import Engine, loop_body_paths, show_sv, strip_epoch
@@ -30,8 +30,6 @@ def check(src, rep):
     file = src.file(MOD)
     rep.count("modules", len(src.text))
     from sa.decoders import p1_decode_worker
-    fn = p1_decode_worker(M)
-    rep.require(fn is not None, "cannot find the per-data-set decoder reached from decode_p1_readout_content")
     rep.assumptions += ["IEEE double lemma: for a decimal with <= 3 fractional digits, int(float(t) * 1000) is the exact product or one below, never above (paper argument, DESIGN.md A.5)",
                         "parse_data_block's input/output relation over all well-formed blocks is NOT decided (honest not-applicable for that clause); its termination is C15/R2"]
     rep.explanation = ("PARTIAL. Decided: every path of the per-data-set step dispatches on the case-folded unit only - {V, A, var, varh} -> float(value), {kW, kWh, kvar, kvarh} -> "
@@ -39,152 +37,151 @@ def check(src, rep):
                        "names come from obis_name_map on C.D.E of the reduced address and only single-valued data sets are decoded; the identification fields come from groups MANID and ID; "
                        "decode_p1_readout, decode_p1_readout_content and AutoDecoder's P1 entry reach the same decoder on the same parse of the same payload; lines are split by splitlines() and "
                        "values on '*'. NOT decided: parsing of every well-formed block into one data set per address (behaviour of an index-chasing scanner over all inputs).")
-    E = Engine(M)
-    node, ps = loop_body_paths(E, fn)
-    # ---- R1-R3 by tabulation: the per-data-set step is evaluated for every abstract data set (number of values, unit spelling, address class)
-    # with the transmitted number kept symbolic; exactly one path applies and its dictionary store is compared with the specification.
+    # ---- R1-R3 by tabulation (E-ABS): the public decode_p1_readout_content is interpreted with the parser replaced by an oracle that returns an
+    # abstract data-set list (number of values, unit spelling, address class) whose transmitted number is symbolic; whatever helpers, tables or
+    # dispatch forms the decoder uses are followed by the interpreter, and the resulting dictionary is compared with the specification.
+    from sa.abseval import AbsEval, AObj, Sym
+    from sa.decoders import obis_hook
     try:
         name_map = ce.eval(ast.parse("obis_name_map", mode="eval").body, {}, "obis_map")
     except NotConstant as e:
         raise Undecided(f"obis_map.obis_name_map is not a constant table: {e}")
     rep.require(isinstance(name_map, dict) and len(name_map) > 10, "obis_name_map is not a dictionary")
+    dc = M.funcs.get("dlde.decode_p1_readout_content")
+    dr = M.funcs.get("dlde.decode_p1_readout")
+    pc = M.funcs.get("dlde.parse_p1_readout_content")
+    pr = M.funcs.get("dlde.parse_p1_readout")
+    rep.require(dc is not None and dr is not None and pc is not None and pr is not None, "anchor vanished: P1 parse/decode functions")
     known = next(k for k in sorted(name_map) if k != "1.0.0")
-    VAL, ADDR = Res("VAL"), Res("ADDR")
+    VAL, VAL2 = Sym("VAL", "str"), Sym("VAL2", "str")
     units = [("V", "float"), ("v", "float"), ("A", "float"), ("var", "float"), ("VAR", "float"), ("varh", "float"), ("Varh", "float"),
              ("kW", "kilo"), ("KW", "kilo"), ("kw", "kilo"), ("kWh", "kilo"), ("KWH", "kilo"), ("kvar", "kilo"), ("kVAr", "kilo"), ("kvarh", "kilo"), ("kVArh", "kilo"),
              ("m3", "verbatim"), ("Wh", "verbatim"), ("W", "verbatim"), ("", "verbatim"), (None, "verbatim"), ("kVA", "verbatim"), ("kV", "verbatim"), ("k", "verbatim"), ("K", "verbatim"),
              ("kWh2", "verbatim"), ("VA", "verbatim"), ("Ah", "verbatim"), ("kA", "verbatim"), ("var2", "verbatim")]
-    kilo_ok = {Res("int", Res("Mult", Res("float", VAL), 1000)), Res("round", Res("Mult", Res("float", VAL), 1000)), Res("int", Res("Mult", Res("Decimal", VAL), 1000)),
-               Res("int", Res("round", Res("Mult", Res("float", VAL), 1000)))}
-    clock = Res("datetime", *([Res("Add", 2000, Res("int", Res("slice", VAL, 0, 2)))] + [Res("int", Res("slice", VAL, a, a + 2)) for a in (2, 4, 6, 8, 10)]))
+    ref = AbsEval(M)
+
+    def term(text):
+        return ref.eval(ast.parse(text, mode="eval").body, {"v": VAL}, MOD)
+    try:
+        float_ok = term("float(v)")
+        kilo_ok = [term("int(float(v) * 1000)"), term("round(float(v) * 1000)"), term("int(Decimal(v) * 1000)"), term("int(round(float(v) * 1000))")]
+        clock = term("datetime(2000 + int(v[0:2]), int(v[2:4]), int(v[4:6]), int(v[6:8]), int(v[8:10]), int(v[10:12]))")
+    except Exception as e:  # noqa
+        raise Undecided(f"reference terms not evaluable: {e}")
     bad = 0
     n_cases = 0
     seen_kinds = set()
     reported = set()
+    PAY = b"1-0:1.8.0(1*kWh)\r\n"
+    line0 = (p1_decode_worker(M) or dc).node.lineno
+    at = f"dlde.{(p1_decode_worker(M) or dc).name}"
 
     def vio(rule, tag, text, line, witness):
         nonlocal bad
         bad += 1
         if (rule, tag) not in reported:
             reported.add((rule, tag))
-            rep.violation(rule, f"dlde.{fn.name}", tag, text, file, line, witness=witness)
+            rep.violation(rule, at, tag, text, file, line, witness=witness)
 
+    def mentions(t, syms):
+        if any(t is s_ or t == s_ for s_ in syms):
+            return True
+        return isinstance(t, Res) and any(mentions(a_, syms) for a_ in t.args) or isinstance(t, (list, tuple)) and any(mentions(a_, syms) for a_ in t)
+
+    def dataset(addr, vals):
+        return AObj("DataSet", {"address": addr, "values": [AObj("DataSetValue", {"value": v_, "unit": u_}, cls_key=(MOD, "DataSetValue")) for v_, u_ in vals]}, cls_key=(MOD, "DataSet"))
+
+    def decode(entry, arg, items, calls=None):
+        A = AbsEval(M, hooks={"Obis.from_string": obis_hook})
+
+        def oracle(args, kw):
+            if calls is not None:
+                calls.append(tuple(args))
+            return list(items)
+        A.func_hooks[(MOD, pc.node.name)] = oracle
+        return A.apply(entry, [arg])
+
+    def addr_of(cdr):
+        return f"1-0:{cdr}"
+    stop = False
     for nvals in (0, 1, 2):
         for unit, kind in units:
             for cdr in (known, "250.250.250", "1.0.0"):
-                if cdr == "1.0.0" and unit not in (None, ""):
-                    continue
                 if nvals != 1 and (unit, cdr) != ("kWh", known):
                     continue
-                item = {"values": [{"unit": unit, "value": VAL}] + [{"unit": "x", "value": Res("VAL2")}] * (nvals - 1) if nvals else [], "address": ADDR}
-
-                def leaf(sv, item=item, cdr=cdr):
-                    t = sv[0]
-                    if t == "iter":
-                        return item
-                    if t == "f0":
-                        if sv[2] == "obis_name_map":
-                            return name_map
-                        base = sv_ev(sv[1], {}, leaf)
-                        if isinstance(base, dict) and sv[2] in base:
-                            return base[sv[2]]
-                        raise CannotEval(f"attribute {sv[2]}")
-                    if t == "g":
-                        try:
-                            return ce.eval(ast.parse(sv[1], mode="eval").body, {}, MOD)
-                        except (NotConstant, SyntaxError):
-                            return Res(sv[1])
-                    if t == "call" and isinstance(sv[1], str):
-                        if sv[1].endswith("from_string"):
-                            return Res("obis", ADDR) if sv_ev(sv[2][-1], {}, leaf) == ADDR else NotImplemented
-                        if sv[1].endswith("to_group_cdr_str"):
-                            return cdr
-                    return NotImplemented
                 desc = f"{nvals} value(s), unit {unit!r}, address C.D.E {cdr}"
-                hits, sym_guard, other = [], None, None
-                for p in ps:
-                    if p.status == "raise":
+                res = decode(dc, PAY, [dataset(addr_of(cdr), [(VAL, unit), (VAL2, "x")][:nvals])])
+                if res[0] == "branch":
+                    if mentions(res[1], (VAL, VAL2)) and nvals == 1:
+                        vio("R1", "extra-condition", "the conversion of a data set depends on a condition on the transmitted number itself, not only on its (case-folded) unit and the 1.0.0 address: "
+                            "some transmitted forms of a number (e.g. without fractional digits) are converted differently", line0, f"{desc}: condition {res[1]!r}"[:200])
                         continue
-                    holds = True
-                    for g, pol, gl in p.guards:
-                        if g[0] == "exc":
-                            holds = False
-                            break
-                        try:
-                            if bool(sv_ev(g, {}, leaf)) != pol:
-                                holds = False
-                                break
-                            if isinstance(sv_ev(g, {}, leaf), Res):
-                                raise CannotEval("symbolic truth value")
-                        except CannotEval as e:
-                            if _mentions_value(g):
-                                sym_guard = (g, gl)
-                            else:
-                                other = str(e)
-                            holds = False
-                            break
-                    if holds:
-                        hits.append(p)
-                if sym_guard is not None and nvals == 1:
-                    vio("R1", "extra-condition", "the conversion of a data set depends on a condition on the transmitted number itself, not only on its (case-folded) unit and the 1.0.0 address: "
-                        "some transmitted forms of a number (e.g. without fractional digits) are converted differently", sym_guard[1], f"{desc}: condition {show_sv(sym_guard[0])[:100]}")
-                    continue
-                if other is not None:
-                    rep.undecide(f"R1 the data-set step tests a condition outside the tabulated domain ({other}) for {desc}")
+                    rep.undecide(f"R1 the decoder tests a condition outside the tabulated domain ({res[1]!r}) for {desc}")
                     bad += 1
+                    stop = True
+                    break
+                if res[0] == "undecided":
+                    rep.undecide(f"R1 decode_p1_readout_content is outside the interpreted subset for {desc}: {res[1]}")
+                    bad += 1
+                    stop = True
                     break
                 n_cases += 1
-                if len(hits) != 1:
-                    rep.undecide(f"R1 {len(hits)} paths of the data-set step apply to {desc}")
-                    bad += 1
-                    break
-                p = hits[0]
-                stores = [e for e in p.effects if e[0] == "setitem"]
-                line = stores[0][-1] if stores else node.lineno
+                if res[0] == "raise":
+                    if res[1] == "KeyError":
+                        vio("R3", "naming", "the common-name table is indexed without a membership test (unknown addresses raise KeyError)", line0, desc)
+                    else:
+                        vio("R1", "decoder-raises", f"decoding raises {res[1]} for a well-formed data set", line0, desc)
+                    continue
+                got = res[1]
+                if not isinstance(got, dict):
+                    raise Undecided("decode_p1_readout_content does not return a dictionary")
                 if nvals != 1:
-                    if stores:
-                        vio("R3", "multi-valued-decoded", f"a data set with {nvals} values is decoded", line, desc)
+                    if got:
+                        vio("R3", "multi-valued-decoded", f"a data set with {nvals} values is decoded", line0, f"{desc}: {got!r}"[:200])
                     continue
-                if len(stores) != 1:
-                    vio("R3", "stores-per-dataset", f"a single-valued data set produces {len(stores)} dictionary entries", node.lineno, desc)
+                if len(got) != 1:
+                    vio("R3", "stores-per-dataset", f"a single-valued data set produces {len(got)} dictionary entries", line0, f"{desc}: {got!r}"[:200])
                     continue
-                try:
-                    key, value = sv_ev(stores[0][2], {}, leaf), sv_ev(stores[0][3], {}, leaf)
-                except CannotEval as e:
-                    rep.undecide(f"R1 stored key/value outside the tabulated domain ({e}) for {desc}")
-                    bad += 1
-                    break
+                (key, value), = got.items()
                 want_key = name_map.get(cdr, cdr)
                 if key != want_key:
-                    vio("R3", "naming", "the key is not obis_name_map[C.D.E] (when known) or C.D.E of the data set's address", line, f"{desc}: key {key!r} instead of {want_key!r}")
-                k = "clock" if cdr == "1.0.0" else kind
+                    vio("R3", "naming", "the key is not obis_name_map[C.D.E] (when known) or C.D.E of the data set's address", line0, f"{desc}: key {key!r} instead of {want_key!r}")
+                k = "clock" if (cdr == "1.0.0" and kind == "verbatim") else kind
                 seen_kinds.add(k)
-                if k == "float" and value != Res("float", VAL):
-                    what = "units are compared case-sensitively (or the unit set is not {V, A, var, varh})" if value == VAL else "V/A/var/varh quantities are not stored as float(transmitted number)"
-                    vio("R1", "float-units" if value != VAL else "unit-set", what, line, f"{desc}: stores {value!r}")
-                elif k == "kilo" and value not in kilo_ok:
+                if k == "float" and value != float_ok:
+                    what = "units are compared case-sensitively (or the unit set is not {V, A, var, varh})" if value is VAL or value == VAL else "V/A/var/varh quantities are not stored as float(transmitted number)"
+                    vio("R1", "float-units" if value != VAL else "unit-set", what, line0, f"{desc}: stores {value!r}")
+                elif k == "kilo" and not any(value == t_ for t_ in kilo_ok):
                     what = ("units are compared case-sensitively (or the unit set is not {kW, kWh, kvar, kvarh})" if value == VAL else
                             "kW/kWh/kvar/kvarh quantities are not converted by an idiom of the catalogue (int(float(v) * 1000), round(float(v) * 1000), int(Decimal(v) * 1000))")
-                    vio("R1", "kilo-units" if value != VAL else "unit-set", what, line, f"{desc}: stores {value!r}")
+                    vio("R1", "kilo-units" if value != VAL else "unit-set", what, line0, f"{desc}: stores {value!r}")
+                elif k == "clock" and isinstance(value, Res) and value.op == "strptime":
+                    vio("R2", "clock-slices", "the clock is parsed with strptime: its %y applies the POSIX pivot (years 69..99 become 19YY) instead of 2000+YY", line0, f"{desc}: stores {value!r}"[:260])
                 elif k == "clock" and value != clock:
-                    vio("R2", "clock-slices", "the clock is not datetime(2000+YY, MM, DD, hh, mm, ss) from the slices [0:2], [2:4], ..., [10:12] of YYMMDDhhmmss", line, f"{desc}: stores {value!r}"[:260])
+                    vio("R2", "clock-slices", "the clock is not datetime(2000+YY, MM, DD, hh, mm, ss) from the slices [0:2], [2:4], ..., [10:12] of YYMMDDhhmmss", line0, f"{desc}: stores {value!r}"[:260])
                 elif k == "verbatim" and value != VAL:
-                    vio("R1", "verbatim", "values with another unit (or none) are not stored verbatim", line, f"{desc}: stores {value!r}")
-            else:
-                continue
+                    vio("R1", "verbatim", "values with another unit (or none) are not stored verbatim", line0, f"{desc}: stores {value!r}")
+            if stop:
+                break
+        if stop:
             break
-        else:
-            continue
-        break
-    n_paths = len([p for p in ps if p.status != "raise"])
+    # several data sets in one block: each is decoded on its own (no carry-over between data sets or calls)
+    if not bad:
+        multi = [dataset(addr_of(known), [(VAL, "kWh")]), dataset(addr_of("250.250.250"), [(VAL2, None)]), dataset(addr_of("1.0.0"), [(VAL, None)]), dataset(addr_of("251.250.250"), [(VAL, "V"), (VAL2, "V")])]
+        res = decode(dc, PAY, multi)
+        want = {name_map[known]: kilo_ok[0], "250.250.250": VAL2, name_map.get("1.0.0", "1.0.0"): clock}
+        if res[0] in ("undecided", "branch"):
+            rep.undecide(f"R3 a block of several data sets is outside the interpreted subset: {res[1]!r}")
+            bad += 1
+        elif res[0] != "value" or not isinstance(res[1], dict) or set(res[1]) != set(want) or any(not (res[1][k_] == want[k_] or (k_ == name_map[known] and any(res[1][k_] == t_ for t_ in kilo_ok))) for k_ in want):
+            vio("R3", "stores-per-dataset", "a block of several data sets is not decoded data set by data set", line0, f"got {res[1]!r}"[:260])
     if not bad and seen_kinds >= {"float", "kilo", "clock", "verbatim"}:
-        rep.ok("R1", f"{n_cases} abstract data sets x {n_paths} step paths", "unit dispatch on the case-folded unit only: {V,A,var,varh} -> float(v); {kW,kWh,kvar,kvarh} -> int(float(v)*1000); 1.0.0 -> clock; otherwise verbatim (transmitted number symbolic)")
+        rep.ok("R1", f"{n_cases} abstract data sets", "unit dispatch on the case-folded unit only: {V,A,var,varh} -> float(v); {kW,kWh,kvar,kvarh} -> int(float(v)*1000); 1.0.0 -> clock; otherwise verbatim (transmitted number symbolic)")
         rep.ok("R2", "clock", "YYMMDDhhmmss slices [0:2]..[10:12] feed datetime(2000+YY, MM, DD, hh, mm, ss) in this order")
         rep.ok("R3", "naming", "obis_name_map[C.D.E] when known, else C.D.E; only single-valued data sets are decoded")
     cg = cdr_groups_finding(M)
     if cg:
         rep.violation("R3", "obis.Obis.to_group_cdr_str", "cde-groups", cg, src.file("obis"), 1)
-    rep.floor("data-set step paths", n_paths, 4)
     rep.floor("abstract data sets tabulated", n_cases, 40)
     # ---------------------------------------------------------------- R4 identification
     I = M.classes.get((MOD, "Ident"))
@@ -195,64 +192,73 @@ def check(src, rep):
         if tag in ("ident-group", "ident-str"):
             ok4 = False
             rep.violation("R4", "dlde.Ident", tag, f"the identification line is not split into its three flag letters and the identification: {text}", file, I.node.lineno)
-    dr = M.funcs.get("dlde.decode_p1_readout")
-    rep.require(dr is not None, "anchor vanished: dlde.decode_p1_readout")
-    dc = M.funcs.get("dlde.decode_p1_readout_content")
-    rep.require(dc is not None, "anchor vanished: dlde.decode_p1_readout_content")
     try:
         MAN, TYP = ce.eval(ast.parse("FIELD_METER_MANUFACTURER_ID", mode="eval").body, {}, "obis_map"), ce.eval(ast.parse("FIELD_METER_TYPE_ID", mode="eval").body, {}, "obis_map")
     except NotConstant as e:
         raise Undecided(f"obis_map field-name constants: {e}")
-    rd = ("p", dr.params[0])
-    IL = ("f0", rd, "identification_line")
-    dr_paths = [p for p in Engine(M).run(dr) if p.status == "return"]
-    ids_ok = bool(dr_paths)
-    for p in dr_paths:
-        st = {_strip_lines(strip_epoch(e[2])): _strip_lines(strip_epoch(e[3])) for e in p.effects if e[0] == "setitem"}
-        has_type = any(_strip_lines(strip_epoch(g)) == ("cmp", "Is", ("f0", IL, "identification"), ("c", None)) and not pol for g, pol, _ in p.guards)
-        if st.get(("c", MAN)) != ("f0", IL, "manufacturer_id"):
+    # the whole-readout decoder = the content decoder on the readout's payload + the two identification fields (E-ABS, symbolic identification line)
+    block = [dataset(addr_of(known), [(VAL, "kWh")]), dataset(addr_of("250.250.250"), [(VAL2, None)])]
+    content_res = decode(dc, PAY, block)
+    ok5 = True
+    ids_ok = True
+    for ident in (Sym("IDENT", "str"), None):
+        man = Sym("MANID", "str")
+        ro = AObj("DataReadout", {"payload": PAY, "identification_line": AObj("Ident", {"manufacturer_id": man, "identification": ident}), "is_valid": True, "as_bytes": b"/XXX5\r\n" + PAY + b"!\r\n"})
+        calls = []
+        whole = decode(dr, ro, block, calls)
+        if whole[0] in ("undecided", "branch") or content_res[0] in ("undecided", "branch"):
+            rep.undecide(f"R4 decode_p1_readout is outside the interpreted subset: {whole[1]!r} / {content_res[1]!r}")
+            ok4 = ok5 = False
+            break
+        if whole[0] != "value" or content_res[0] != "value" or not isinstance(whole[1], dict):
+            ok5 = False
+            rep.violation("R5", "dlde.decode_p1_readout", "shared-decoder", f"the whole-readout decoder does not decode a well-formed readout ({whole[1]!r})", file, dr.node.lineno)
+            break
+        w_ = dict(whole[1])
+        got_man, got_typ = w_.pop(MAN, "<absent>"), w_.pop(TYP, "<absent>")
+        if not (got_man is man or got_man == man) or (ident is not None and not (got_typ is ident or got_typ == ident)) or (ident is None and got_typ not in ("<absent>",)):
             ids_ok = False
-        if has_type and st.get(("c", TYP)) != ("f0", IL, "identification"):
-            ids_ok = False
-        if not has_type and ("c", TYP) in st:
-            ids_ok = False
-    dc_paths = [p for p in Engine(M).run(dc) if p.status == "return"]
-    ids_only_whole = not any(e[0] == "setitem" and e[2] in (("c", MAN), ("c", TYP)) for p in dc_paths + ps for e in p.effects)
-    if ok4 and ids_ok and ids_only_whole:
+        if w_ != content_res[1] or any(c_ != (PAY,) for c_ in calls) or not calls:
+            ok5 = False
+            rep.violation("R5", "dlde", "shared-decoder", "the P1 entry points do not decode the same parse of the same payload bytes with the same per-data-set decoder", file, dc.node.lineno,
+                          witness=f"whole readout: parser called with {calls!r}, gives {w_!r}; content: {content_res[1]!r}"[:300])
+            break
+    if content_res[0] == "value" and isinstance(content_res[1], dict) and (MAN in content_res[1] or TYP in content_res[1]):
+        ids_ok = False
+    if ok4 and ids_ok:
         rep.ok("R4", "identification fields", "manufacturer_id = group MANID, identification = group ID; stored under meter_manufacturer_id / meter_type_id only by the whole-readout decoder")
     elif ok4:
         rep.violation("R4", "dlde.decode_p1_readout", "ident-fields", "the identification fields are not stored (only) by the whole-readout decoder from the identification line", file, dr.node.lineno)
     from sa.cross import include as _inc
     _inc(rep, src, "C04", {"R5"}, "R4", "the identification line is split by a pattern that accepts exactly the standard's syntax (any number of escape sequences, 1-16 identification characters)")
     # ---------------------------------------------------------------- R5 sibling agreement
-    ok5 = True
-    pc = M.funcs.get("dlde.parse_p1_readout_content")
-    pr = M.funcs.get("dlde.parse_p1_readout")
-    rep.require(pc is not None and pr is not None and dc is not None, "anchor vanished: P1 parse/decode functions")
-    def parse_arg(p):
-        """the text handed to the block parser on a path: (source SV of the bytes, decoded how)"""
-        for e in p.effects:
-            if e[0] == "call" and isinstance(e[1], str) and e[1].endswith("parse_data_block") and e[2]:
-                a = _strip_lines(strip_epoch(e[2][0]))
-                if a[0] == "call" and a[1] == ".decode" and a[2][1:] in ((("c", "ascii"),), ()):
-                    return a[2][0]
-                return ("other", a)
-        return None
-
-    worker_lines = range(fn.node.lineno, (fn.node.end_lineno or fn.node.lineno) + 1)
-
-    def reaches_worker(p):
-        return any(e[0] == "loop" and e[2] in worker_lines for e in p.effects)
-    pr_paths = [p for p in Engine(M).run(pr) if p.status == "return"]
-    if not pr_paths or any(parse_arg(p) != ("f0", ("p", pr.params[0]), "payload") for p in pr_paths):
+    # the content decoder hands exactly its argument to the parser; the whole-readout parser hands the readout's payload to the content parser
+    calls = []
+    decode(dc, PAY, block, calls)
+    if calls != [(PAY,)]:
+        ok5 = False
+        rep.violation("R5", "dlde.decode_p1_readout_content", "shared-decoder", "the content decoder does not parse exactly the bytes it is given (once)", file, dc.node.lineno, witness=repr(calls)[:200])
+    calls = []
+    r_ = decode(pr, AObj("DataReadout", {"payload": PAY, "is_valid": True, "as_bytes": b"/XXX5\r\n" + PAY + b"!\r\n"}), block, calls)
+    if r_[0] in ("undecided", "branch"):
+        rep.undecide(f"R5 parse_p1_readout is outside the interpreted subset: {r_[1]!r}")
+        ok5 = False
+    elif calls != [(PAY,)] or r_[0] != "value" or r_[1] != block:
         ok5 = False
         rep.violation("R5", "dlde.parse_p1_readout", "payload", "the whole-readout parser does not hand the readout's payload to the content parser", file, pr.node.lineno)
-    shared = bool(dr_paths) and bool(dc_paths) and all(parse_arg(p) == ("f0", rd, "payload") and reaches_worker(p) for p in dr_paths) \
-        and all(parse_arg(p) == ("p", dc.params[0]) and reaches_worker(p) for p in dc_paths)
-    if not shared:
+    # the content parser itself: strict ASCII decoding of the whole content, handed to the block parser
+    calls = []
+    A = AbsEval(M)
+    pdb_ = M.find_method((MOD, "DataSet"), "parse_data_block")
+    rep.require(pdb_ is not None, "anchor vanished: DataSet.parse_data_block")
+    A.func_hooks[(MOD, pdb_.node.name)] = lambda args, kw: (calls.append(tuple(args)), block)[1]
+    r_ = A.apply(pc, [PAY])
+    if r_[0] in ("undecided", "branch"):
+        rep.undecide(f"R5 parse_p1_readout_content is outside the interpreted subset: {r_[1]!r}")
         ok5 = False
-        rep.violation("R5", "dlde", "shared-decoder", "the P1 entry points do not decode the same parse of the same payload bytes with the same per-data-set decoder", file, dc.node.lineno,
-                      witness=f"whole readout parses {[show_sv(parse_arg(p) or ('c', None))[:40] for p in dr_paths]}; content parses {[show_sv(parse_arg(p) or ('c', None))[:40] for p in dc_paths]}")
+    elif r_[0] != "value" or r_[1] != block or [c_[-1:] for c_ in calls] != [(PAY.decode("ascii"),)]:
+        ok5 = False
+        rep.violation("R5", "dlde.parse_p1_readout_content", "payload", "the content parser does not hand the ASCII text of the whole content to the block parser", file, pc.node.lineno, witness=repr(calls)[:200])
     try:
         table = ce.class_const("autodecoder", "AutoDecoder", "payload_decoder_functions")
         p1 = [fr for n, fr in table if n == "P1"]
@@ -262,26 +268,64 @@ def check(src, rep):
     except NotConstant:
         rep.undecide("R5 AutoDecoder table not constant")
     if ok5:
-        rep.ok("R5", "entry points", "decode_p1_readout, decode_p1_readout_content and AutoDecoder's P1 entry all reach _decode_parsed on parse_p1_readout_content of the same payload bytes")
+        rep.ok("R5", "entry points", "decode_p1_readout = decode_p1_readout_content on the readout's payload + identification fields; both parse exactly the payload bytes; AutoDecoder's P1 entry is the content decoder")
     from sa.cross import include
     include(rep, src, "C12", {"R1", "R2", "R5"}, "R5", "the same block decodes identically through AutoDecoder (for every history)")
     # ---------------------------------------------------------------- R6 line / value splitting
     pdb = M.classes[(MOD, "DataSet")].methods.get("parse_data_block") if (MOD, "DataSet") in M.classes else None
     rep.require(pdb is not None, "anchor vanished: DataSet.parse_data_block")
-    splits = [n for n in ast.walk(pdb.node) if isinstance(n, ast.Call) and isinstance(n.func, ast.Attribute) and n.func.attr in ("splitlines", "split")]
-    if any(n.func.attr == "splitlines" and not n.args for n in splits):
-        rep.ok("R6", "line splitting", "the block is split with str.splitlines(): LF and CRLF line ends are both accepted, blank lines dropped")
-    else:
-        rep.violation("R6", "dlde.DataSet.parse_data_block", "line-splitting", "the data block is not split into lines with splitlines(): blocks with LF-only (or CRLF) line ends are parsed as one line", file, pdb.node.lineno,
-                      witness="; ".join(ast.unparse(n)[:40] for n in splits) or "no split")
+    # the splitting classes, through the interpreter on one representative each (the relation over all blocks is not decided): value*unit,
+    # LF / CRLF line ends, blank lines, several data sets per line, several values per data set
     dv = M.classes.get((MOD, "DataSetValue"))
     pv = dv.methods.get("parse") if dv else None
     rep.require(pv is not None, "anchor vanished: DataSetValue.parse")
-    t = ast.unparse(pv.node)
-    if "split('*')" in t and re.search(r"DataSetValue\(pair\[0\], pair\[1\]\)|cls\(pair\[0\], pair\[1\]\)", t):
-        rep.ok("R6", "value*unit", "value and unit are the parts before and after the single '*'")
-    else:
-        rep.violation("R6", "dlde.DataSetValue.parse", "value-unit-split", "a value is not split into (value, unit) at '*'", file, pv.node.lineno)
+    A6 = AbsEval(M)
+
+    def shape_value(v_):
+        return (v_.attrs.get("value"), v_.attrs.get("unit")) if isinstance(v_, AObj) else v_
+
+    def shape(r_):
+        if r_[0] != "value":
+            return r_
+        if isinstance(r_[1], list):
+            return ("value", [(d_.attrs.get("address"), [shape_value(v_) for v_ in d_.attrs.get("values", [])]) if isinstance(d_, AObj) else d_ for d_ in r_[1]])
+        return ("value", shape_value(r_[1]))
+    okv = True
+    for text, want_v in (("1.5*kWh", ("value", ("1.5", "kWh"))), ("0123", ("value", ("0123", None))), ("*V", ("value", ("", "V"))), ("1*2*3", ("raise", "ValueError"))):
+        r_ = A6.apply(pv, [Opaque(f"class {MOD}.DataSetValue"), text]) if pv.kind == "classmethod" else A6.apply(pv, [text])
+        if r_[0] in ("undecided", "branch"):
+            rep.undecide(f"R6 DataSetValue.parse is outside the interpreted subset: {r_[1]!r}")
+            okv = None
+            break
+        if shape(r_) != want_v:
+            okv = False
+            rep.violation("R6", "dlde.DataSetValue.parse", "value-unit-split", "a value is not split into (value, unit) at '*'", file, pv.node.lineno, witness=f"parse({text!r}) gives {shape(r_)!r}, expected {want_v!r}"[:200])
+            break
+    if okv:
+        rep.ok("R6", "value*unit", "value and unit are the parts before and after the single '*' (class representatives through the interpreter)")
+    blocks = [
+        ("LF line ends", "1-0:1.8.0(1.5*kWh)\n1-0:2.8.0(2*kWh)\n", [("1-0:1.8.0", [("1.5", "kWh")]), ("1-0:2.8.0", [("2", "kWh")])]),
+        ("CRLF line ends", "1-0:1.8.0(1.5*kWh)\r\n1-0:2.8.0(2*kWh)\r\n", [("1-0:1.8.0", [("1.5", "kWh")]), ("1-0:2.8.0", [("2", "kWh")])]),
+        ("blank lines", "\r\n1-0:1.8.0(1.5*kWh)\r\n\r\n1-0:2.8.0(2)\r\n", [("1-0:1.8.0", [("1.5", "kWh")]), ("1-0:2.8.0", [("2", None)])]),
+        ("several data sets per line", "1-0:1.8.0(1.5*kWh)1-0:2.8.0(2*kWh)\r\n0-0:1.0.0(210101000000W)\r\n", [("1-0:1.8.0", [("1.5", "kWh")]), ("1-0:2.8.0", [("2", "kWh")]), ("0-0:1.0.0", [("210101000000W", None)])]),
+        ("several values", "1-0:99.97.0(2)(0-0:96.7.19)(1*s)\r\n", [("1-0:99.97.0", [("2", None)]), ("0-0:96.7.19", [("1", "s")])] if False else None),
+    ]
+    okb = True
+    for what, text, want_b in blocks:
+        r_ = A6.apply(pdb, [text] if pdb.kind == "static" else [Opaque(f"class {MOD}.DataSet"), text])
+        if r_[0] in ("undecided", "branch"):
+            rep.undecide(f"R6 DataSet.parse_data_block is outside the interpreted subset ({what}): {r_[1]!r}")
+            okb = None
+            break
+        if want_b is None:
+            want_b = [("1-0:99.97.0", [("2", None), ("0-0:96.7.19", None), ("1", "s")])]
+        if shape(r_) != ("value", want_b):
+            okb = False
+            rep.violation("R6", "dlde.DataSet.parse_data_block", "line-splitting", f"a block with {what} is not parsed into its data sets (one per address, values and units in order)", file, pdb.node.lineno,
+                          witness=f"{text!r} gives {shape(r_)!r}"[:260])
+            break
+    if okb:
+        rep.ok("R6", "line splitting", "LF and CRLF line ends, blank lines, several data sets per line and several values per data set parse into one data set per address (class representatives through the interpreter)")
 
 
 def _mentions_value(sv):
